@@ -169,9 +169,63 @@ func LoadPath(fs ...*types.Var) VP {
 // ParamV matches the i-th parameter of the enclosing function (receiver is 0 for methods).
 func ParamV(name string) VP {
 	return func(v ssa.Value) bool {
-		p, ok := stripConv(v).(*ssa.Parameter)
-		return ok && p.Name() == name
+		v = stripConv(v)
+		if p, ok := v.(*ssa.Parameter); ok {
+			return p.Name() == name
+		}
+		// parameter spilled to a heap cell because a closure (e.g. a range-over-func
+		// body) captures it: `t0 = new T (name); *t0 = name; ... *t0`
+		if u, ok := v.(*ssa.UnOp); ok && u.Op == token.MUL {
+			return isParamCell(u.X, name)
+		}
+		return false
 	}
+}
+
+// isParamCell: v is the cell (Alloc, or a closure's free variable bound to it) holding
+// the named parameter, and the parameter is its only stored value.
+func isParamCell(v ssa.Value, name string) bool {
+	switch x := v.(type) {
+	case *ssa.Alloc:
+		if x.Comment != name || x.Referrers() == nil {
+			return false
+		}
+		n := 0
+		okStore := false
+		for _, r := range *x.Referrers() {
+			if st, ok := r.(*ssa.Store); ok && st.Addr == x {
+				n++
+				if p, ok := st.Val.(*ssa.Parameter); ok && p.Name() == name {
+					okStore = true
+				}
+			}
+		}
+		return n == 1 && okStore
+	case *ssa.FreeVar:
+		// find binding in parent's MakeClosure
+		fn := x.Parent()
+		idx := -1
+		for i, fv := range fn.FreeVars {
+			if fv == x {
+				idx = i
+			}
+		}
+		if idx < 0 || fn.Parent() == nil {
+			return false
+		}
+		found := false
+		okAll := true
+		eachInstr(fn.Parent(), func(in ssa.Instruction) {
+			if mc, ok := in.(*ssa.MakeClosure); ok && mc.Fn == fn && idx < len(mc.Bindings) {
+				found = true
+				if !isParamCell(mc.Bindings[idx], name) {
+					okAll = false
+				}
+			}
+		})
+		return found && okAll
+	}
+	return false
 }
 
 // ConstI matches an integer constant with the given value.
